@@ -42,7 +42,7 @@ type stats struct {
 	aclFlipped, oddTargetNames, updatesOnlyRound, atomicTwist                                  bool
 	foreignWrite, foreignDeniedStored, pollFlood, pollFloodBig, pollFloodLeftStalled           bool
 	dressed, malformedFirst, twinPaths, streamHalfClosed                                       bool
-	nearValue, nearFine, rpcEndedDuringItsWalk                                                 bool
+	nearValue, nearFine, rpcEndedDuringItsWalk, readd, emptyList                               bool
 	valueKinds                                                                                 map[string]bool
 	skippedSteps, maxBulk, maxOnceLeaves                                                       int
 }
@@ -107,6 +107,8 @@ func (s *stats) labels() []string {
 	add(s.pollFloodLeftStalled, "poll-client-left-stalled-after-triggers")
 	add(s.dressed, "request-dressed-with-unimplemented-fields")
 	add(s.rpcEndedDuringItsWalk, "rpc-ended-while-its-own-walk-was-inside-a-queue-insertion")
+	add(s.readd, "registered-target-added-again")
+	add(s.emptyList, "subscription-list-without-subscriptions")
 	add(s.nearValue, "update-carrying-the-smallest-change-of-the-stored-value")
 	add(s.nearFine, "smallest-change-of-a-decimal-beyond-float32-precision")
 	add(s.streamHalfClosed, "stream-client-half-closed-its-sending-side")
@@ -563,6 +565,9 @@ func (w *world) newSub(i int, spec SubSpec) *subState {
 	default:
 		sl.Mode = pb.SubscriptionList_STREAM
 	}
+	if len(spec.Paths) == 0 {
+		w.st.emptyList = true
+	}
 	joined := map[string]string{}
 	for _, p := range spec.Paths {
 		idx := gn.IndexOfElems(p.Elems, false)
@@ -842,7 +847,7 @@ func (w *world) doWriter(wr *writer) {
 		w.c.Reset(name)
 	case "remove":
 		w.c.Remove(name)
-	case "add":
+	case "add", "readd":
 		w.c.Add(name)
 	case "sync":
 		w.c.Sync(name)
@@ -875,7 +880,7 @@ func (w *world) stepWriter(st Step) {
 		w.st.skippedSteps++
 		return
 	}
-	if (op.Kind == "add" || op.Kind == "remove") && w.resetParked() {
+	if (op.Kind == "add" || op.Kind == "remove" || op.Kind == "readd") && w.resetParked() {
 		// a parked Reset holds the cache's read lock
 		w.st.skippedSteps++
 		return
@@ -885,6 +890,19 @@ func (w *world) stepWriter(st Step) {
 		if w.live[name] {
 			w.st.skippedSteps++
 			return
+		}
+	case "readd":
+		// Add of a name that is registered: the target starts afresh (nothing is announced); only generated where
+		// no STREAM subscription can be open (C05 profile)
+		if !w.live[name] {
+			w.st.skippedSteps++
+			return
+		}
+		for _, s := range w.subs {
+			if s.spec.Mode == "stream" {
+				w.st.skippedSteps++
+				return
+			}
 		}
 	case "remove":
 		if !w.live[name] {
@@ -1008,6 +1026,17 @@ func (w *world) stepWriter(st Step) {
 // afterWriter updates the harness's own bookkeeping once a writer operation completed.
 func (w *world) afterWriter(wr *writer) {
 	switch wr.op.Kind {
+	case "readd":
+		w.st.readd = true
+		w.mu.Lock()
+		for k := range w.known {
+			if gn.Unkey(k)[0] == wr.target {
+				delete(w.known, k)
+				w.lastTouch[k] = w.step
+				w.gen[k]++
+			}
+		}
+		w.mu.Unlock()
 	case "add":
 		w.live[wr.target] = true
 	case "remove":
@@ -1064,6 +1093,11 @@ func (w *world) stepStart(st Step) {
 	s.snapshot = w.expected(s)
 	s.startLive = s.target == "*" || w.live[s.target]
 	switch {
+	case s.spec.First == "" && s.spec.HalfClose && s.spec.Mode != "poll":
+		s.stream.recvC <- s.req
+		close(s.stream.recvC)
+		s.eofSent = true
+		w.st.streamHalfClosed = true
 	case s.spec.First == "":
 		s.stream.recvC <- s.req
 	case s.first != nil:
